@@ -21,7 +21,21 @@
   explicitly (`aliased` / `detached` below).
 
   Values are trees (`V`); spec objects that are used as dict keys are `V.obj n`
-  (hashed by identity); `id(container n)` is the int `idBase + n`.
+  (hashed by identity); `id(container n)` is the int `idBase + n`; the class objects a
+  run can meet as values (`type(x)`) are `V.obj (clsBase + i)`.
+
+  Spec NODES can be class objects, too.  GROUP decides per node, on the node itself and on
+  every call, in this order: `callable(getattr(spec, 'agg', None))` → aggregator;
+  `callable(spec)` → plain callable; else container.  So `type` / `str` / `bool` / `int`
+  used as key functions are callables (`Fn.cls`), a class with a static / class method
+  `agg` used without instantiation is an aggregator although it is callable as well
+  (`Agg.clsLast`, `Agg.clsCount`), and an aggregator class whose parentheses were forgotten
+  (`Group(First)`) is an aggregator whose unbound `agg` raises TypeError (`Agg.unbound`).
+  Nothing is remembered between two calls of GROUP: the model has no state besides the tree.
+
+  T-expressions in key / value position are chains of T operations (`Fn.texpr`): subscription
+  and the arithmetic operators of `_t_eval`, which compute `cur = cur <op> arg` — a NEW value
+  (`Glom/Model/C16Heap.lean` has the same loop on a store of mutable cells).
 -/
 namespace Glom.C16
 
@@ -116,6 +130,20 @@ def dset : List (V × V) → V → V → List (V × V)
 
 /-! ### key / value functions: T-expressions and catalogue callables -/
 
+/-- the class objects used as callables -/
+inductive Cls where
+  | type | str | bool | int
+  deriving Repr, Inhabited, BEq, DecidableEq
+
+/-- one operation of a T-expression (`T[k]`, `T + lit`, `T * n`, `T | lit`, `T % n`) -/
+inductive TOp where
+  | item (k : V)
+  | add (lit : V)
+  | mul (n : Int)
+  | bor (lit : V)
+  | mod (n : Nat)
+  deriving Repr, Inhabited, BEq
+
 inductive Fn where
   | ident                        -- T
   | mod (n : Nat)                -- T % n              (n > 0)
@@ -129,6 +157,8 @@ inductive Fn where
   | objIf (v : V) (n : Nat)      -- lambda t: (spec object n) if t == v else t
   | len                          -- len
   | const (v : V)                -- lambda t: v
+  | texpr (ops : List TOp)       -- the T-expression T<op1><op2>…
+  | cls (c : Cls)                -- a class object used as a callable: type / str / bool / int
   deriving Repr, Inhabited, BEq
 
 def asInt : V → Option Int
@@ -147,30 +177,151 @@ def seqGet (xs : List V) (i : Int) : Option V :=
 /-- Python `==` between an item and a scalar constant (scalars only) -/
 def scalarEq (a b : V) : Bool := keyEq a b
 
+/-- `cur[k]` inside `_t_eval` (KeyError / IndexError / TypeError → PathAccessError) -/
+def getItem (k : V) (t : V) : Except Err V :=
+  match t with
+  | .dict es => match dget es k with
+    | some v => .ok v
+    | none => .error (err "PathAccessError")
+  | .list xs | .tuple xs =>
+    match asInt k with
+    | some i => match seqGet xs i with
+      | some v => .ok v
+      | none => .error (err "PathAccessError")
+    | none => .error (err "PathAccessError")
+  | .str str =>
+    match asInt k with
+    | some i => match seqGet (str.toList.map (fun c => V.str (String.singleton c))) i with
+      | some v => .ok v
+      | none => .error (err "PathAccessError")
+    | none => .error (err "PathAccessError")
+  | _ => .error (err "PathAccessError")
+
+/-- `d.update(m)` for a dict `m`; also `d | m` (a new dict: d's entries, then m's) -/
+def dupdate (es : List (V × V)) (ps : List (V × V)) : List (V × V) :=
+  ps.foldl (fun acc p => dset acc p.1 p.2) es
+
+/-- `xs * n` for a sequence -/
+def repeatList {α : Type} (xs : List α) (n : Int) : List α := (List.replicate n.toNat xs).flatten
+
+/-- one step of the `_t_eval` loop: `cur = cur[arg]` / `cur = cur + arg` / `cur = cur * arg` /
+    `cur = cur | arg` / `cur = cur % arg`.  The result is a NEW value: the operand is not
+    changed (TypeError / ArithmeticError / ValueError → PathAccessError). -/
+def TOp.apply : TOp → V → Except Err V
+  | .item k, cur => getItem k cur
+  | .add lit, cur =>
+    match asInt cur, asInt lit with
+    | some a, some b => .ok (.int (a + b))
+    | _, _ =>
+      match cur, lit with
+      | .str a, .str b => .ok (.str (a ++ b))
+      | .list xs, .list ys => .ok (.list (xs ++ ys))
+      | .tuple xs, .tuple ys => .ok (.tuple (xs ++ ys))
+      | _, _ => .error (err "PathAccessError")
+  | .mul n, cur =>
+    match asInt cur with
+    | some a => .ok (.int (a * n))
+    | none =>
+      match cur with
+      | .str a => .ok (.str (String.join (List.replicate n.toNat a)))
+      | .list xs => .ok (.list (repeatList xs n))
+      | .tuple xs => .ok (.tuple (repeatList xs n))
+      | _ => .error (err "PathAccessError")
+  | .bor lit, cur =>
+    match cur, lit with
+    | .dict es, .dict ps => .ok (.dict (dupdate es ps))
+    | _, _ => .error (err "PathAccessError")
+  | .mod n, cur =>
+    match asInt cur with
+    | some i => if n == 0 then .error (err "PathAccessError") else .ok (.int (pyMod i n))
+    | none => .error (err "PathAccessError")
+
+/-- the `while i < fetch_till` loop of `_t_eval` over the operations of a T-expression -/
+def tEval : List TOp → V → Except Err V
+  | [], cur => .ok cur
+  | op :: ops, cur =>
+    match op.apply cur with
+    | .ok v => tEval ops v
+    | .error e => .error e
+
+/-! ### class objects as callables -/
+
+def clsBase : Nat := 1000
+
+/-- `type(v)`: the class object, by identity (NoneType, bool, int, str, float, list, tuple, dict, …) -/
+def typeObj : V → V
+  | .none => .obj (clsBase + 0)
+  | .bool _ => .obj (clsBase + 1)
+  | .int _ => .obj (clsBase + 2)
+  | .str _ => .obj (clsBase + 3)
+  | .float _ => .obj (clsBase + 4)
+  | .list _ => .obj (clsBase + 5)
+  | .tuple _ => .obj (clsBase + 6)
+  | .dict _ => .obj (clsBase + 7)
+  | .skip | .stop => .obj (clsBase + 8)
+  | .obj _ => .obj (clsBase + 9)
+
+/-- `bool(v)` -/
+def truthy : V → Bool
+  | .none => false
+  | .bool b => b
+  | .int i => i != 0
+  | .str s => !s.isEmpty
+  | .list xs | .tuple xs => !xs.isEmpty
+  | .dict es => !es.isEmpty
+  | _ => true
+
+mutual
+/-- `repr(v)` for the values items are made of (strings without quotes / escapes) -/
+def pyRepr : V → String
+  | .none => "None"
+  | .bool b => if b then "True" else "False"
+  | .int i => toString i
+  | .str s => "'" ++ s ++ "'"
+  | .list xs => "[" ++ ", ".intercalate (pyReprList xs) ++ "]"
+  | .tuple xs =>
+    match pyReprList xs with
+    | [r] => "(" ++ r ++ ",)"
+    | rs => "(" ++ ", ".intercalate rs ++ ")"
+  | .dict es => "{" ++ ", ".intercalate (pyReprPairs es) ++ "}"
+  | _ => "<object>"
+def pyReprList : List V → List String
+  | [] => []
+  | x :: xs => pyRepr x :: pyReprList xs
+def pyReprPairs : List (V × V) → List String
+  | [] => []
+  | (k, v) :: es => (pyRepr k ++ ": " ++ pyRepr v) :: pyReprPairs es
+end
+
+/-- `str(v)` -/
+def pyStr : V → String
+  | .str s => s
+  | v => pyRepr v
+
+/-- calling the class object: `type(t)`, `str(t)`, `bool(t)`, `int(t)` -/
+def Cls.apply : Cls → V → Except Err V
+  | .type, t => .ok (typeObj t)
+  | .str, t => .ok (.str (pyStr t))
+  | .bool, t => .ok (.bool (truthy t))
+  | .int, t =>
+    match asInt t with
+    | some i => .ok (.int i)
+    | none =>
+      match t with
+      | .str s => match s.toInt? with
+        | some i => .ok (.int i)
+        | none => .error (err "ValueError")
+      | _ => .error (err "TypeError")
+
 def Fn.apply : Fn → V → Except Err V
   | .ident, t => .ok t
   | .mod n, t =>
     match asInt t with
     | some i => if n == 0 then .error (err "PathAccessError") else .ok (.int (pyMod i n))
     | none => .error (err "PathAccessError")
-  | .item k, t =>
-    match t with
-    | .dict es => match dget es k with
-      | some v => .ok v
-      | none => .error (err "PathAccessError")
-    | .list xs | .tuple xs =>
-      match asInt k with
-      | some i => match seqGet xs i with
-        | some v => .ok v
-        | none => .error (err "PathAccessError")
-      | none => .error (err "PathAccessError")
-    | .str str =>
-      match asInt k with
-      | some i => match seqGet (str.toList.map (fun c => V.str (String.singleton c))) i with
-        | some v => .ok v
-        | none => .error (err "PathAccessError")
-      | none => .error (err "PathAccessError")
-    | _ => .error (err "PathAccessError")
+  | .item k, t => getItem k t
+  | .texpr ops, t => tEval ops t
+  | .cls c, t => c.apply t
   | .skipOdd, t =>
     match asInt t with
     | some i => .ok (if pyMod i 2 != 0 then .skip else t)
@@ -201,7 +352,28 @@ def Fn.apply : Fn → V → Except Err V
 inductive Agg where
   | first | max | min | avg
   | sum (f : Fn) | count | flatten (f : Fn) | merge (f : Fn)
+  | sample (size : Nat) (tbl : List Nat)   -- Sample(size); `tbl`: its random source (see `draw`)
+  | clsLast                      -- the CLASS `class Last: agg = staticmethod(lambda target, tree: target)`
+  | clsCount                     -- the CLASS with `@classmethod agg(cls, target, tree)`: counts in `tree[cls]`
+  | unbound                      -- an aggregator CLASS without parentheses (`Group(First)`): `First.agg(target, tree)`
   deriving Repr, Inhabited, BEq
+
+/-- `random.randint(0, n)` as a parameter: the table entry `n mod |tbl|`, reduced into `[0, n]`.
+    (Within one reservoir `n` = `num_seen` grows by one per call, so every finite sequence of
+    draws of a reservoir is some table.) -/
+def draw (tbl : List Nat) (n : Nat) : Nat :=
+  match tbl with
+  | [] => 0
+  | _ => (tbl.getD (n % tbl.length) 0) % (n + 1)
+
+/-- one step of the reservoir: `(num_seen, sample)` after `target` -/
+def sampleStep (size : Nat) (tbl : List Nat) (st : Nat × List V) (target : V) : Nat × List V :=
+  -- if len(sample) < self.size: sample.append(target)
+  if st.2.length < size then (st.1 + 1, st.2 ++ [target])
+  else
+    -- pos = random.randint(0, num_seen); if pos < self.size: sample[pos] = target
+    let pos := draw tbl st.1
+    (st.1 + 1, if pos < size then st.2.set pos target else st.2)
 
 /-- `a > b` / `a < b` between ints (bools) or between strings; anything else is a TypeError -/
 def pyLt (a b : V) : Option Bool :=
@@ -223,10 +395,6 @@ def iterOf : V → Option (List V)
   | .dict es => some (es.map (·.1))
   | .str s => some (s.toList.map (fun c => V.str (String.singleton c)))
   | _ => none
-
-/-- `d.update(m)` for a dict `m` -/
-def dupdate (es : List (V × V)) (ps : List (V × V)) : List (V × V) :=
-  ps.foldl (fun acc p => dset acc p.1 p.2) es
 
 /-- `spec.agg(target, tree)` / `Fold._agg` / `Merge._agg`: the result and the updated tree.
     `self` is the aggregator object (the key under which it keeps its state). -/
@@ -288,6 +456,22 @@ def aggStep (self : V) (a : Agg) (target : V) (tree : List (V × V)) : Except Er
       match cur, t with
       | .dict es, .dict ps => .ok (.dict (dupdate es ps), dset tree self (.dict (dupdate es ps)))
       | _, _ => .error (err "TypeError")
+  | .sample size tbl =>
+    -- if self not in tree: tree[self] = [0, []];  num_seen, sample = tree[self]
+    let st : Nat × List V := match dget tree self with
+      | some (.list [.int n, .list xs]) => (n.toNat, xs)
+      | _ => (0, [])
+    let st' := sampleStep size tbl st target
+    -- tree[self][0] += 1; return sample      (the list in the tree)
+    .ok (.list st'.2, dset tree self (.list [.int st'.1, .list st'.2]))
+  | .clsLast => .ok (target, tree)                   -- return target
+  | .clsCount =>
+    -- tree[cls] = tree.get(cls, 0) + 1; return tree[cls]
+    let cur := (dget tree self).getD (.int 0)
+    match asInt cur with
+    | some x => .ok (.int (x + 1), dset tree self (.int (x + 1)))
+    | none => .error (err "TypeError")
+  | .unbound => .error (err "TypeError")             -- agg() missing 1 required positional argument
 
 /-! ### Group specs -/
 
@@ -332,7 +516,11 @@ def loopWith (step : V → List (V × V) → Except Err (V × List (V × V))) :
 /-- `scope[glom](target, spec, scope)` in Group mode, with `scope[ACC_TREE] = tree`:
     the result and the tree afterwards -/
 def gstep : GSpec → V → List (V × V) → Except Err (V × List (V × V))
+  -- `if callable(getattr(spec, 'agg', None)): return spec.agg(target, tree)`: aggregator objects, and
+  -- class objects with a callable `agg` (they are callable too: this test comes first)
   | .agg oid a, target, tree => aggStep (.obj oid) a target tree
+  -- `elif callable(spec): return spec(target)`: functions, T-expressions (evaluated by `_glom`
+  -- before the mode dispatch), class objects without `agg`
   | .fn f, target, tree =>
     match f.apply target with
     | .ok v => .ok (v, tree)
@@ -411,5 +599,16 @@ def groupLoop (g : GSpec) : List V → V → List (V × V) → Except Err V := l
 /-- `glom(items, Group(g))`: `scope[ACC_TREE] = {}` afresh on every evaluation -/
 def groupEval (g : GSpec) (items : List V) : Except Err V :=
   groupLoop g items (emptyOf g) []
+
+/-- a history of evaluations in one process: `evals = [(i, j), …]` is
+    `glom(targets[j], Group-object i)` one after the other.  Every evaluation starts from
+    `scope[ACC_TREE] = {}` and GROUP keeps nothing between calls, so the history is the
+    list of the stand-alone evaluations. -/
+def evalHistory (specs : List GSpec) (targets : List (List V)) (evals : List (Nat × Nat)) :
+    List (Option (Except Err V)) :=
+  evals.map (fun e =>
+    match specs[e.1]?, targets[e.2]? with
+    | some g, some its => some (groupEval g its)
+    | _, _ => none)
 
 end Glom.C16
